@@ -116,7 +116,7 @@ pub proof fn lemma_payload_safe(s: Seq<u8>, target: QuoteTarget, level: QuoteLev
 //@rewrite-all _escape(value, ==> _escape(Cow::Borrowed(value),
 /// Escapes atomic value that could be part of a `xs:list`. All whitespace characters
 /// additionally escaped
-fn escape_item(value: &str, target: QuoteTarget, level: QuoteLevel) -> (r: Cow<str>)
+pub fn escape_item(value: &str, target: QuoteTarget, level: QuoteLevel) -> (r: Cow<str>)
     // C13: exactly the bytes the table demands are replaced by references (QuoteLevel / QuoteTarget documentation)
     ensures cow_str_bytes(r) == spec_escape(value.spec_bytes(), p_item(target, level)),
 {
